@@ -301,6 +301,10 @@ Proof. vm_compute. reflexivity. Qed.
 
 (* ---- lifting ---- *)
 
+(* the lifting lemmas never need to look inside the fuelled traversals: tell the conversion
+   oracle to unfold them last (a heuristic only; nothing becomes opaque to the kernel) *)
+Strategy opaque [resolve mentions].
+
 Lemma surface_parts :
   gate_decl_ok P_safehtml = true /\ gate_decl_ok P_template = true /\
   forallb (fun f => pkg_known (f_pkg f)) gen_funcs = true /\
